@@ -80,4 +80,26 @@ PROPS = {
         "assumptions": ["arguments that do not satisfy the declared parameter schema are outside the property's domain and are not counted",
                         "strings are valid UTF-8 (they reach the functions from YAML or CBOR text)"],
     },
+    "C10": {
+        "test": "TestC10", "binary": "plain", "level": "exploration",
+        "rule": "rapid-generated programs (all tags incl. soft-optional, stop_if, foreach, deploy / enabled / wait_for expressions) are prepared "
+                "and the engine's DAG (nodes + typed edges read through ListNodes / OutstandingDependencies / ListInboundConnections) must EQUAL the "
+                "graph derived from the text by the reference (both directions); then single-point corruptions of the accepted program (22 kinds: "
+                "cycles through input / wait_for / one-of option, renamed step / stage / output / field / input field, stage without outputs, unknown "
+                "function, wrong arity, missing required input, ill-typed literals, unknown fields / keys / plugin step, no outputs, bad version) "
+                "must each be rejected by Prepare. non-trivial = accepted program with a tag or > 60 edges; every corruption counts",
+        "quick": {"cases": 360, "shards": 12, "shrinktime": "30s"},
+        "thorough": {"cases": 6000, "shards": 16, "shrinktime": "120s", "timeout_s": 3000},
+        "assumptions": RUN_ASSUME + ["graph rules are those of DESIGN.md appendix C, confirmed against a dump of the engine's DAG"],
+    },
+    "C16": {
+        "test": "TestC16", "binary": "plain", "level": "exploration",
+        "rule": "rapid-generated programs are prepared, then prepared again twice, under 3 generated permutations of steps / outputs / input "
+                "fields / map keys / one-of options, and under a consistent renaming of all steps; oracle = identical verdict and identical "
+                "canonical form (sorted nodes and typed edges, output schemas and namespaces rendered structurally with random inferred ids "
+                "removed, names mapped back). non-trivial = >=3 steps or a tag; each (program, transformation) pair counts",
+        "quick": {"cases": 300, "shards": 12, "shrinktime": "30s"},
+        "thorough": {"cases": 6000, "shards": 16, "shrinktime": "120s", "timeout_s": 3000},
+        "assumptions": RUN_ASSUME,
+    },
 }
